@@ -279,8 +279,12 @@ def scenario_snapshot(tape, out):
     for i in range(nsrc):
         name = tape.choice("program", ("a", "b", "traceback", "a-1"), "name")
         data = _bytes(tape)
-        kind = tape.draw("program", 4, "source-kind")
-        if kind == 3:
+        kind = tape.draw("program", 5, "source-kind")
+        if kind == 4:
+            bufs = [bytearray(c) for c in _cut(tape, data)]
+            src[name] = Content(ContentType("application", "octet-stream"), lambda c=bufs: list(c))   # fresh list, the source's own buffers
+            cells[name] = ("livebuffers", bufs, data)
+        elif kind == 3:
             live = list(_cut(tape, data))
             src[name] = Content(ContentType("application", "octet-stream"), lambda c=live: c)   # the same live list every time
             cells[name] = ("livelist", live, data)
@@ -305,6 +309,9 @@ def scenario_snapshot(tape, out):
         elif kind == "livelist":
             del obj[:]
             obj.append(b"CHANGED")
+        elif kind == "livebuffers":
+            for b in obj:
+                b[:] = b"CHANGED"
         else:
             obj.data = bytearray(b"CHANGED")
     out.fire("source-mutated-after-gather")
